@@ -3,6 +3,7 @@
   "stored under its `_id` syntactically, or under a value `==` to it", and a single insert.
 -/
 import Proofs.C05Store
+import Proofs.StoreFlag
 
 set_option linter.unusedSimpArgs false
 set_option linter.unusedVariables false
@@ -54,6 +55,10 @@ theorem hasKey_false_iff (c : Coll) (k : Val) :
 theorem setDoc_fresh (c : Coll) (k d : Val) (h : c.hasKey k = false) :
     (c.setDoc k d).docs = c.docs ++ [(k, d)] := by
   simp [Coll.setDoc, h]
+
+theorem storeDoc_fresh (c : Coll) (k d : Val) (h : c.hasKey k = false) :
+    (c.storeDoc k d).docs = c.docs ++ [(k, d)] := by
+  rw [storeDoc_docs, setDoc_fresh c k d h]
 
 theorem setDoc_present (c : Coll) (k d : Val) (h : c.hasKey k = true) :
     (c.setDoc k d).docs = c.docs.map (fun p => if pyEq p.1 k then (p.1, d) else p) := by
@@ -140,7 +145,7 @@ def insertCore (now : Int) (c0 : Coll) (fs1 : Fields) : R (Coll × Val) := do
   let c1 ← expire now c0
   if c1.hasKey key then .error .dupKey
   else do
-    let c2 := c1.setDoc key d
+    let c2 := c1.storeDoc key d
     match ensureUniques now c2 d with
     | .ok c3 => pure (c3, id)
     | .error e => .error e
@@ -158,7 +163,7 @@ theorem insertCore_spec (now : Int) (c0 : Coll) (fs1 : Fields) (c' : Coll) (id :
     (h : insertCore now c0 fs1 = .ok (c', id)) :
     dget "_id" (patchFields fs1) = some id ∧ storeKey id = .ok id ∧
     ∃ c1, expire now c0 = .ok c1 ∧ c1.hasKey id = false ∧
-      ensureUniques now (c1.setDoc id (.doc (patchFields fs1))) (.doc (patchFields fs1)) = .ok c' := by
+      ensureUniques now (c1.storeDoc id (.doc (patchFields fs1))) (.doc (patchFields fs1)) = .ok c' := by
   unfold insertCore at h
   simp only [patchDT, patch, bind, Except.bind, pure, Except.pure] at h
   have hsome : ∃ w, dget "_id" (patchFields fs1) = some w := by
@@ -199,7 +204,7 @@ theorem insertDoc_spec (now : Int) (c : Coll) (data : Val) (c' : Coll) (id : Val
       refine ⟨c1, .doc (patchFields fs), expire_sub now c c1 he, hf, h1, h2, ?_⟩
       have := ensureUniques_sub now _ _ _ hu
       unfold Sub at this
-      rwa [setDoc_fresh _ _ _ hf] at this
+      rwa [storeDoc_fresh _ _ _ hf] at this
     · have hh : dhas "_id" (dset "_id" (.oid c.nextOid) fs) = true := by
         simp [dhas, dget_dset_self]
       obtain ⟨h1, h2, c1, he, hf, hu⟩ := insertCore_spec now _ _ c' id hh h
@@ -207,7 +212,7 @@ theorem insertDoc_spec (now : Int) (c : Coll) (data : Val) (c' : Coll) (id : Val
         (show c1.docs.Sublist c.docs from expire_sub now { c with nextOid := c.nextOid + 1 } c1 he), hf, h1, h2, ?_⟩
       have := ensureUniques_sub now _ _ _ hu
       unfold Sub at this
-      rwa [setDoc_fresh _ _ _ hf] at this
+      rwa [storeDoc_fresh _ _ _ hf] at this
   | _ => simp [insertDoc] at h
 
 theorem insertDoc_winv (now : Int) (c : Coll) (data : Val) (c' : Coll) (id : Val)
